@@ -238,6 +238,22 @@ func goCuratedWorlds() []wWorld {
 	r2 := emptyF("dir0/f2.proto", "c", "example.com/x/v1.2", "dir1/f0.proto", "f1.proto")
 	r2.Msgs = []wMsg{{Head: mh("User", wField{Name: "item", Number: 1, Label: 1, Type: 11, TypeName: ".a.b.Item"},
 		wField{Name: "kinds", Number: 2, Label: 3, Type: 14, TypeName: ".a.b.Kind"}), Nested: []wMsg{}}}
+	// round-2 seeded changes: (1) the synthetic oneof of a proto3-optional field reserves its Go name
+	// (`_foo` -> XFoo) against a sibling `x_foo`; (2) oneof wrapper names collide only with DIRECT
+	// nested types: M.A.B (Go M_A_B) two levels down must not rename the wrapper of member `a_B`
+	p3 := emptyF("probe3.proto", "probe3", "example.com/probe3")
+	p3.Syn = "proto3"
+	optFoo := f("foo", 1)
+	optFoo.Proto3Optional = true
+	optFoo.OneofIndex = i(0)
+	opt := wMsg{Head: mh("Opt", optFoo, f("x_foo", 2)), Nested: []wMsg{}}
+	opt.Head.Oneofs = []string{"_foo"}
+	deepA := wMsg{Head: mh("A"), Nested: []wMsg{{Head: mh("B"), Nested: []wMsg{}}}}
+	deepA.Head.Enums = []wEnum{{Name: "E", Values: []wEnumVal{{"E_ZERO", 0}}}}
+	deep := wMsg{Head: mh("Deep", of("a_B", 1, 0), of("A_E", 2, 0), of("a", 3, 0)), Nested: []wMsg{deepA}}
+	deep.Head.Oneofs = []string{"o"}
+	p3.Msgs = []wMsg{opt, deep}
 	return []wWorld{{Files: []wFile{fl}, Targets: []string{"probe.proto"}},
-		{Files: []wFile{r0, r1, r2}, Targets: []string{"f1.proto", "dir0/f2.proto"}}}
+		{Files: []wFile{r0, r1, r2}, Targets: []string{"f1.proto", "dir0/f2.proto"}},
+		{Files: []wFile{p3}, Targets: []string{"probe3.proto"}}}
 }
